@@ -1,5 +1,3 @@
 import Ymq.Props.C03
-#print axioms Ymq.C03.rho_fallthrough_panics
-#print axioms Ymq.C03.factor_total_partial
-#print axioms Ymq.C03.factor_total_not_rho
-#print axioms Ymq.C03.factorImpl_total_partial
+#print axioms Ymq.C03.factor_total
+#print axioms Ymq.C03.factorImpl_total
